@@ -98,6 +98,9 @@ class Builtins:
                 return VInt(len(v.py))
             if v.is_char:
                 return VInt(1)
+            us = v.units()
+            if us is not None:
+                return VInt(len(us))
             return VInt(z3.Length(v.t))
         if isinstance(v, VList):
             return VInt(v.length())
@@ -444,8 +447,22 @@ class Builtins:
     def bi_hasattr(self, args, kwargs, node, fr) -> V:
         raise Unsupported("hasattr")
 
+    def bi_iter(self, args, kwargs, node, fr) -> V:
+        it = VBuiltin("iterator-object")
+        it.items = list(self.concrete_items(args[0]))  # type: ignore
+        it.pos = 0  # type: ignore
+        return it
+
     def bi_next(self, args, kwargs, node, fr) -> V:
-        raise Unsupported("next()")
+        it = args[0]
+        if not (isinstance(it, VBuiltin) and it.name == "iterator-object"):
+            raise Unsupported("next() of a non-iterator")
+        if it.pos < len(it.items):  # type: ignore
+            it.pos += 1  # type: ignore
+            return it.items[it.pos - 1]  # type: ignore
+        if len(args) > 1:
+            return args[1]
+        raise RaiseEx(VExc("StopIteration", []), node)
 
     def bi_io_StringIO(self, args, kwargs, node, fr) -> V:
         s = VStream(self.path.fresh_name("StringIO"))
@@ -578,6 +595,13 @@ class Builtins:
             self.path.add_fact(z3.Implies(n > 0, z3.And(z3.Not(_is_ws(r[0])), z3.Not(_is_ws(r[n - 1])))))
             self.path.add_fact(z3.Contains(s.t, r))
             return VStr([r])
+        if name == "count" and s.units() is not None and isinstance(args[0], VStr) and args[0].py is not None \
+                and len(args[0].py) == 1:
+            c = ord(args[0].py)
+            acc: Any = z3.IntVal(0)
+            for u in s.units():
+                acc = acc + (z3.If(u == c, 1, 0) if not isinstance(u, int) else (1 if u == c else 0))
+            return VInt(acc)
         if name == "count":
             p = self.as_str(args[0], node, fr)
             f = z3.Function("str_count", SEQ, SEQ, z3.IntSort())
